@@ -279,3 +279,15 @@ pub proof fn lemma_frame_ok_under(t1: Tree, t2: Tree, R: Seq<char>, p: Seq<char>
         }
     }
 }
+/// a common suffix cancels
+pub proof fn lemma_concat_injective_right(a: Seq<char>, b: Seq<char>, s: Seq<char>)
+    requires a + s == b + s
+    ensures a == b
+{
+    assert((a + s).len() == a.len() + s.len() && (b + s).len() == b.len() + s.len());
+    assert forall|i: int| 0 <= i < a.len() implies a[i] == b[i] by {
+        assert((a + s)[i] == a[i]);
+        assert((b + s)[i] == b[i]);
+    }
+    assert(a =~= b);
+}
